@@ -120,6 +120,7 @@ struct Data {
   std::vector<int> wsi; std::vector<double> wsv; std::vector<int> dwi; std::vector<double> dwv;
   std::vector<double> sufv[8];
   bool allcont = true;
+  mutable std::string hclass_cache;
   std::set<int> nlvars;      // columns occurring in a stored Hessian entry
   explicit Data(const Case& cc) : c(cc) {
     int n = c.n;
@@ -197,13 +198,20 @@ static bool g_keep = false;
 static int g_corrupt = 0;           // self-test: 1 = oracle expects a wrong permutation, 2 = wrong objective
 
 static std::set<std::string> g_case_sigs;   // untagged signatures already raised for the C++ path of this case
-static void viol(const std::string& sig, const std::string& what) {
+static std::set<std::string> g_sent_sigs;   // signatures this process already reported (the supervisor keeps one per signature)
+static bool viol_wanted(const std::string& sig) {
   if (g_tag.empty()) g_case_sigs.insert(sig);
-  else if (g_case_sigs.count(sig)) return;   // same finding as on the C++ path: not a C API finding
+  else if (g_case_sigs.count(sig)) return false;   // same finding as on the C++ path: not a C API finding
+  return !g_sent_sigs.count("C08 " + g_tag + sig);
+}
+#define VIOL(sig, what) do { std::string sig_ = (sig); if (viol_wanted(sig_)) viol(sig_, (what)); } while (0)
+static void viol(const std::string& sig, const std::string& what) {
+  g_sent_sigs.insert("C08 " + g_tag + sig);
   std::string d = "{\"case\":\"" + vx::jesc(g_case ? g_case->str() : "") + "\",\"what\":\"" + vx::jesc(what) + "\"}";
   std::string r = "{\"case\":\"" + vx::jesc(g_case ? g_case->str() : "") + "\"}";
   L.viol.push_back({"C08 " + g_tag + sig, d, r});
 }
+static bool g_want_detail = true;   // false while judging a case whose finding was already reported
 static std::string fmtd(double v) { char b[40]; std::snprintf(b, sizeof b, "%.17g", v); return b; }
 static std::string vecs(const std::vector<int>& v) { std::string s = "["; for (size_t i = 0; i < v.size(); ++i) { if (i) s += ","; s += std::to_string(v[i]); } return s + "]"; }
 static std::string vecd(const std::vector<double>& v) { std::string s = "["; for (size_t i = 0; i < v.size(); ++i) { if (i) s += ","; s += fmtd(v[i]); } return s + "]"; }
@@ -354,7 +362,7 @@ static std::string nnzclass(const Data& D) {
 }
 // Input class of the Hessian used as signature discriminator: does the number of stored entries equal
 // the number of distinct columns involved, and does every involved column occur as a column index?
-static std::string hclass(const Data& D) {
+static std::string hclass_compute(const Data& D) {
   if (D.H.empty()) return "no Hessian";
   std::set<int> cols; for (auto& e : D.H) cols.insert(e.j);
   bool clean = D.H.size() == D.nlvars.size() && cols == D.nlvars;
@@ -362,13 +370,17 @@ static std::string hclass(const Data& D) {
                : "Hessian: #entries != #distinct vars or a var occurs only as row index";
 }
 
+static const std::string& hclass(const Data& D) {
+  if (D.hclass_cache.empty()) D.hclass_cache = hclass_compute(D);
+  return D.hclass_cache;
+}
 struct ReadBack { bool strict_ok = false, lenient_ok = false; };
 
 static ReadBack check_written(const std::string& stub, const Data& D, std::vector<int> vperm, std::vector<int> vinv) {
   const Case& c = D.c; int n = c.n, m = c.m; ReadBack rb;
   if (g_corrupt == 1 && n >= 2) { std::swap(vperm[0], vperm[1]); vinv[vperm[0]] = 0; vinv[vperm[1]] = 1; }
   std::string nl;
-  if (!slurp(stub + ".nl", nl)) { viol("no .nl file written", stub); return rb; }
+  if (!slurp(stub + ".nl", nl)) { VIOL("no .nl file written", stub); return rb; }
   // ---- header class counts against the caller's data
   Hdr h = parse_header(nl);
   int exp_nlvo = (int)D.nlvars.size(), exp_nlvoi = 0, exp_nbv = 0, exp_niv = 0;
@@ -376,27 +388,27 @@ static ReadBack check_written(const std::string& stub, const Data& D, std::vecto
     if (D.nlvars.count(j)) ++exp_nlvoi;
     else if (D.lb[j] == 0 && D.ub[j] == 1) ++exp_nbv; else ++exp_niv;
   }
-  if (!h.ok) viol("NL header unparsable", nl.substr(0, 200));
+  if (!h.ok) VIOL("NL header unparsable", nl.substr(0, 200));
   else {
     stat("header_checks");
     char want = c.fmt == 0 ? 'b' : 'g';
-    if (h.fmtc != want) viol("header format letter != requested format", std::string(1, h.fmtc));
+    if (h.fmtc != want) VIOL("header format letter != requested format", std::string(1, h.fmtc));
     if (h.nvars != n || h.ncons != m || h.nobjs != 1)
-      viol("header item counts (vars/cons/objs) wrong", nl.substr(0, 120));
+      VIOL("header item counts (vars/cons/objs) wrong", nl.substr(0, 120));
     if (h.nlvo != exp_nlvo)
-      viol(std::string("header nl-var count != distinct vars in Hessian (header ") + (h.nlvo > exp_nlvo ? ">" : "<") +
+      VIOL(std::string("header nl-var count != distinct vars in Hessian (header ") + (h.nlvo > exp_nlvo ? ">" : "<") +
            " distinct; " + hclass(D) + ")", "num_nl_vars_in_objs=" + std::to_string(h.nlvo) + " distinct=" + std::to_string(exp_nlvo));
-    if (h.nlvc != 0 || h.nlvb != 0 || h.nlc != 0) viol("header declares nonlinear constraints/vars in constraints", nl.substr(0, 200));
-    if (h.nlo != (D.H.empty() ? 0 : 1)) viol("header num_nl_objs wrong", std::to_string(h.nlo));
+    if (h.nlvc != 0 || h.nlvb != 0 || h.nlc != 0) VIOL("header declares nonlinear constraints/vars in constraints", nl.substr(0, 200));
+    if (h.nlo != (D.H.empty() ? 0 : 1)) VIOL("header num_nl_objs wrong", std::to_string(h.nlo));
     if (h.nlvoi != exp_nlvoi)
-      viol("header num_nl_integer_vars_in_objs != integer vars in Hessian (" + hclass(D) + ")", "header=" + std::to_string(h.nlvoi) + " expected=" + std::to_string(exp_nlvoi));
-    if (h.nlvbi != 0 || h.nlvci != 0) viol("header declares nonlinear integer vars in constraints", "");
-    if (h.nbv != exp_nbv) viol("header num_linear_binary_vars != linear binary columns (" + hclass(D) + ")", "header=" + std::to_string(h.nbv) + " expected=" + std::to_string(exp_nbv));
-    if (h.niv != exp_niv) viol("header num_linear_integer_vars != linear general-integer columns (" + hclass(D) + ")", "header=" + std::to_string(h.niv) + " expected=" + std::to_string(exp_niv));
-    if (h.nzJ != (long)D.aindex.size()) viol("header Jacobian nonzeros != nnz(A)", std::to_string(h.nzJ));
+      VIOL("header num_nl_integer_vars_in_objs != integer vars in Hessian (" + hclass(D) + ")", "header=" + std::to_string(h.nlvoi) + " expected=" + std::to_string(exp_nlvoi));
+    if (h.nlvbi != 0 || h.nlvci != 0) VIOL("header declares nonlinear integer vars in constraints", "");
+    if (h.nbv != exp_nbv) VIOL("header num_linear_binary_vars != linear binary columns (" + hclass(D) + ")", "header=" + std::to_string(h.nbv) + " expected=" + std::to_string(exp_nbv));
+    if (h.niv != exp_niv) VIOL("header num_linear_integer_vars != linear general-integer columns (" + hclass(D) + ")", "header=" + std::to_string(h.niv) + " expected=" + std::to_string(exp_niv));
+    if (h.nzJ != (long)D.aindex.size()) VIOL("header Jacobian nonzeros != nnz(A)", std::to_string(h.nzJ));
   }
   bool perm_ok = valid_perm(vperm, vinv, n);
-  if (!perm_ok) viol("reported permutation is not a bijection with consistent inverse", vecs(vperm) + vecs(vinv));
+  if (!perm_ok) VIOL("reported permutation is not a bijection with consistent inverse", vecs(vperm) + vecs(vinv));
   else {
     // ---- block order of NL: [nonlinear cont, nonlinear int | linear cont, linear binary, linear int]
     stat("perm_checks");
@@ -409,13 +421,13 @@ static ReadBack check_written(const std::string& stub, const Data& D, std::vecto
       return (D.lb[j] == 0 && D.ub[j] == 1) ? 3 : 4;
     };
     for (int j = 0; j < n; ++j) if (D.nlvars.count(j) && vperm[j] >= exp_nlvo) {
-      viol("nonlinear var placed outside the nonlinear block (" + hclass(D) + ")", "col " + std::to_string(j) + " -> pos " +
+      VIOL("nonlinear var placed outside the nonlinear block (" + hclass(D) + ")", "col " + std::to_string(j) + " -> pos " +
            std::to_string(vperm[j]) + " nl-block size " + std::to_string(exp_nlvo) + " perm " + vecs(vperm));
       break;
     }
     for (int p = 0; p + 1 < n; ++p) if (cls(vinv[p]) > cls(vinv[p + 1])) {
       static const char* CN[] = {"nl-cont", "nl-int", "lin-cont", "lin-bin", "lin-int"};
-      viol("permuted order violates NL class order [nl-cont, nl-int | lin-cont, lin-bin, lin-int] (" + hclass(D) + ")",
+      VIOL("permuted order violates NL class order [nl-cont, nl-int | lin-cont, lin-bin, lin-int] (" + hclass(D) + ")",
            std::string(CN[cls(vinv[p])]) + " before " + CN[cls(vinv[p + 1])] + ", perm " + vecs(vperm));
       break;
     }
@@ -427,18 +439,18 @@ static ReadBack check_written(const std::string& stub, const Data& D, std::vecto
     if (c.nm) {
       stat("name_checks");
       if (m == 0 && !hr) { hr = true; row = std::string(OBJNAME) + "\n"; }   // no rows: no row names were passed
-      if (!hc || !hr) viol("names given but .col/.row missing", hc ? ".row" : ".col");
+      if (!hc || !hr) VIOL("names given but .col/.row missing", hc ? ".row" : ".col");
       else if (perm_ok) {
         auto cl = lines_of(col); bool ok = (int)cl.size() == n;
         for (int p = 0; ok && p < n; ++p) ok = cl[p] == COLNAME[vinv[p]];
-        if (!ok) viol(".col names do not follow the permutation", vx::jesc(col) + " perm " + vecs(vperm));
+        if (!ok) VIOL(".col names do not follow the permutation", vx::jesc(col) + " perm " + vecs(vperm));
         auto rl = lines_of(row); ok = (int)rl.size() == m + 1;
         for (int r = 0; ok && r < m; ++r) ok = rl[r] == ROWNAME[r];
         if (ok) ok = rl[m] == OBJNAME;
-        if (!ok) viol(".row names wrong (rows then objective)", vx::jesc(row));
+        if (!ok) VIOL(".row names wrong (rows then objective)", vx::jesc(row));
       }
     } else {
-      if (hc || hr) viol("no names given but a (stale) .col/.row file is left next to the .nl", hc ? ".col" : ".row");
+      if (hc || hr) VIOL("no names given but a (stale) .col/.row file is left next to the .nl", hc ? ".col" : ".row");
     }
   }
   // ---- read back with the real reader
@@ -449,9 +461,9 @@ static ReadBack check_written(const std::string& stub, const Data& D, std::vecto
     std::string msg = normalize_msg(e.what());
     int nargs = (int)D.H.size() + (OFFV[c.off] != 0 ? 1 : 0);
     if (msg.find("too few arguments") != std::string::npos && !D.H.empty() && nargs < 3)
-      viol("readback rejected: sum with <3 args (hessian " + nnzclass(D) + ", summands=" + std::to_string(nargs) + ")", e.what());
+      VIOL("readback rejected: sum with <3 args (hessian " + nnzclass(D) + ", summands=" + std::to_string(nargs) + ")", e.what());
     else
-      viol("readback rejected: " + msg + " (" + hclass(D) + ")", e.what());
+      VIOL("readback rejected: " + msg + " (" + hclass(D) + ")", e.what());
     L.classes.insert(g_tag + "readback:rejected:" + msg);
   }
   stage(ST_ORACLE);
@@ -474,7 +486,7 @@ static ReadBack check_written(const std::string& stub, const Data& D, std::vecto
   stat("readback_ok");
   mp::Problem& p = *P;
   if (p.num_vars() != n || p.num_algebraic_cons() != m || p.num_objs() != 1 || p.num_logical_cons() != 0) {
-    viol("readback item counts differ", std::to_string(p.num_vars()) + "/" + std::to_string(p.num_algebraic_cons()) + "/" + std::to_string(p.num_objs()));
+    VIOL("readback item counts differ", std::to_string(p.num_vars()) + "/" + std::to_string(p.num_algebraic_cons()) + "/" + std::to_string(p.num_objs()));
     return rb;
   }
   if (!perm_ok) return rb;
@@ -483,19 +495,19 @@ static ReadBack check_written(const std::string& stub, const Data& D, std::vecto
   for (int j = 0; j < n; ++j) {
     auto v = p.var(vperm[j]); stat("var_checks");
     if (v.lb() != D.lb[j] || v.ub() != D.ub[j])
-      viol("readback bounds of column differ at its permuted position", "col " + std::to_string(j) + " type " + T_NAME[c.t[j]] + " pos " +
+      VIOL("readback bounds of column differ at its permuted position", "col " + std::to_string(j) + " type " + T_NAME[c.t[j]] + " pos " +
            std::to_string(vperm[j]) + " got [" + fmtd(v.lb()) + "," + fmtd(v.ub()) + "] perm " + vecs(vperm));
     bool gi = v.type() == mp::var::INTEGER;
     if (gi != (D.type[j] != 0))
-      viol(std::string("readback integrality differs at permuted position (caller: ") + (D.type[j] ? "integer" : "continuous") + ", " + hclass(D) + ")",
+      VIOL(std::string("readback integrality differs at permuted position (caller: ") + (D.type[j] ? "integer" : "continuous") + ", " + hclass(D) + ")",
            "col " + std::to_string(j) + " type " + T_NAME[c.t[j]] + " pos " + std::to_string(vperm[j]) + " perm " + vecs(vperm));
     if (D.type[j]) any_int = true;
   }
   // objective
   {
     auto o = p.obj(0);
-    if ((o.type() == mp::obj::MAX) != (c.sense == 1)) viol("readback objective sense differs", std::to_string((int)o.type()));
-    if (h.ok && h.nzG != o.linear_expr().num_terms()) viol("header gradient nonzeros != G entries", std::to_string(h.nzG));
+    if ((o.type() == mp::obj::MAX) != (c.sense == 1)) VIOL("readback objective sense differs", std::to_string((int)o.type()));
+    if (h.ok && h.nzG != o.linear_expr().num_terms()) VIOL("header gradient nonzeros != G entries", std::to_string(h.nzG));
     int npts = 1; for (int j = 0; j < n; ++j) npts *= 3;
     static const double PV[3] = {-1, 0, 2};
     bool bad = false, sym_differs = false; std::string what; const char* part = "";
@@ -516,14 +528,14 @@ static ReadBack check_written(const std::string& stub, const Data& D, std::vecto
           what = "x=" + vecd(std::vector<double>(x, x + n)) + " got " + fmtd(got) + " want " + fmtd(want) + " perm " + vecs(vperm);
         }
       }
-      if (bad) viol(std::string("readback objective value differs from c0+c.x+0.5x'Qx (") + part + ")", what);
+      if (bad) VIOL(std::string("readback objective value differs from c0+c.x+0.5x'Qx (") + part + ")", what);
       if (c.hf == 1 && !D.H.empty())
         L.classes.insert(std::string("triangular-format:symmetric-reading:") + (sym_differs ? "differs-from-written" : "same"));
-    } catch (const Unsupported& u) { viol("readback objective has unexpected expression kind", u.kind); }
+    } catch (const Unsupported& u) { VIOL("readback objective has unexpected expression kind", u.kind); }
     if (o.nonlinear_expr()) {
       std::set<int> vs; collect_vars(o.nonlinear_expr(), vs);
       std::set<int> want; for (int j : D.nlvars) want.insert(vperm[j]);
-      if (vs != want) viol("readback nonlinear objective mentions other variables than the Hessian", "");
+      if (vs != want) VIOL("readback nonlinear objective mentions other variables than the Hessian", "");
     }
     if (any_int && any_h && rb.strict_ok) stat("miqp_readback_ok");
   }
@@ -531,13 +543,13 @@ static ReadBack check_written(const std::string& stub, const Data& D, std::vecto
   for (int r = 0; r < m; ++r) {
     auto con = p.algebraic_con(r); stat("row_checks");
     if (con.lb() != D.rlb[r] || con.ub() != D.rub[r])
-      viol(std::string("readback row range differs (kind ") + RK_NAME[c.rk[r]] + ")", "row " + std::to_string(r) + " got [" + fmtd(con.lb()) + "," + fmtd(con.ub()) + "]");
+      VIOL(std::string("readback row range differs (kind ") + RK_NAME[c.rk[r]] + ")", "row " + std::to_string(r) + " got [" + fmtd(con.lb()) + "," + fmtd(con.ub()) + "]");
     double got[3] = {0, 0, 0}, want[3] = {0, 0, 0}; int cnt = 0, wcnt = 0;
     for (auto& t : con.linear_expr()) { if (t.var_index() >= 0 && t.var_index() < n) got[t.var_index()] += t.coef(); ++cnt; }
     for (int j = 0; j < n; ++j) if (c.am >> (r * n + j) & 1) { want[vperm[j]] = AV[r][j]; ++wcnt; }
     bool ok = cnt == wcnt; for (int q = 0; q < n; ++q) if (got[q] != want[q]) ok = false;
-    if (!ok) viol("readback row coefficients differ (through the permutation)", "row " + std::to_string(r) + " got " + vecd({got[0], got[1], got[2]}) + " want " + vecd({want[0], want[1], want[2]}) + " perm " + vecs(vperm));
-    if (con.nonlinear_expr()) viol("readback row has a nonlinear part", "");
+    if (!ok) VIOL("readback row coefficients differ (through the permutation)", "row " + std::to_string(r) + " got " + vecd({got[0], got[1], got[2]}) + " want " + vecd({want[0], want[1], want[2]}) + " perm " + vecs(vperm));
+    if (con.nonlinear_expr()) VIOL("readback row has a nonlinear part", "");
   }
   // warm starts
   {
@@ -547,19 +559,19 @@ static ReadBack check_written(const std::string& stub, const Data& D, std::vecto
       double val = pos < (int)iv.size() ? iv[pos] : 0;
       bool want = c.ws >> j & 1;
       if (set != want || (want && val != WSV[j])) ok = false;
-      got += (set ? fmtd(val) : std::string("-")) + " ";
+      if (g_want_detail) got += (set ? fmtd(val) : std::string("-")) + " ";
     }
     stat("warmstart_checks");
-    if (!ok) viol("readback initial values do not follow their columns", "ws=" + std::to_string(c.ws) + " got(by caller col) " + got + " perm " + vecs(vperm));
+    if (!ok) VIOL("readback initial values do not follow their columns", "ws=" + std::to_string(c.ws) + " got(by caller col) " + got + " perm " + vecs(vperm));
     auto dv = p.InitialDualValues(); auto dvs = p.InitialDualValuesSparsity(); ok = true; got.clear();
     for (int r = 0; r < m; ++r) {
       bool set = r < (int)dvs.size() && dvs[r]; double val = r < (int)dv.size() ? dv[r] : 0;
       bool want = c.dws >> r & 1;
       if (set != want || (want && val != DWSV[r])) ok = false;
-      got += (set ? fmtd(val) : std::string("-")) + " ";
+      if (g_want_detail) got += (set ? fmtd(val) : std::string("-")) + " ";
     }
     if ((int)dvs.size() > m) ok = false;
-    if (!ok) viol("readback initial dual values differ", "dws=" + std::to_string(c.dws) + " got " + got);
+    if (!ok) VIOL("readback initial dual values differ", "dws=" + std::to_string(c.dws) + " got " + got);
   }
   // suffixes
   {
@@ -574,21 +586,21 @@ static ReadBack check_written(const std::string& stub, const Data& D, std::vecto
       std::string kd = std::string(KN[k & 3]) + "," + (k & 4 ? "real" : "int");
       if (nnz == 0) { if (s) ++expected_count[k & 3]; continue; }   // all-zero suffix may be omitted
       ++expected_count[k & 3];
-      if (!s) { viol("readback suffix missing (" + kd + ")", SUFNAME[k]); continue; }
+      if (!s) { VIOL("readback suffix missing (" + kd + ")", SUFNAME[k]); continue; }
       bool isreal = (s.kind() & mp::suf::FLOAT) != 0;
-      if (isreal != ((k & 4) != 0)) { viol("readback suffix int/real flag differs (" + kd + ")", SUFNAME[k]); continue; }
+      if (isreal != ((k & 4) != 0)) { VIOL("readback suffix int/real flag differs (" + kd + ")", SUFNAME[k]); continue; }
       bool ok = s.num_values() >= (int)vals.size(); std::string got;
       for (int i = 0; ok && i < (int)vals.size(); ++i) {
         int pos = (k & 3) == 0 ? vperm[i] : i;
         double g = isreal ? mp::Cast<mp::DoubleSuffix>(s).value(pos) : (double)mp::Cast<mp::IntSuffix>(s).value(pos);
-        got += fmtd(g) + " ";
+        if (g_want_detail) got += fmtd(g) + " ";
         if (g != vals[i]) ok = false;
       }
-      if (!ok) viol("readback suffix values do not follow their items (" + kd + ")", std::string(SUFNAME[k]) + " got(by caller index) " + got + " want " + vecd(vals) + " perm " + vecs(vperm));
+      if (!ok) VIOL("readback suffix values do not follow their items (" + kd + ")", std::string(SUFNAME[k]) + " got(by caller index) " + got + " want " + vecd(vals) + " perm " + vecs(vperm));
     }
     for (int kk = 0; kk < 4; ++kk) {
       int cnt = 0; for (auto it = p.suffixes((mp::suf::Kind)kk).begin(); it != p.suffixes((mp::suf::Kind)kk).end(); ++it) ++cnt;
-      if (cnt != expected_count[kk]) viol(std::string("readback has unexpected suffixes (") + KN[kk] + ")", std::to_string(cnt));
+      if (cnt != expected_count[kk]) VIOL(std::string("readback has unexpected suffixes (") + KN[kk] + ")", std::to_string(cnt));
     }
   }
   return rb;
@@ -630,15 +642,15 @@ static void check_solution(const Data& D, const SolPattern& sp, const mp::NLSolu
   int n = D.c.n, m = D.c.m; std::string pn = sp.name;
   stat("sol_reads");
   if (nonident) stat("sol_reads_nonidentity_perm");
-  if (!sol || !err.empty()) { viol("ReadSolution failed on a well-formed .sol (" + pn + ")", normalize_msg(err)); return; }
-  if (sol.solve_result_ != sp.code) viol("solve result code differs (" + pn + ")", std::to_string(sol.solve_result_));
+  if (!sol || !err.empty()) { VIOL("ReadSolution failed on a well-formed .sol (" + pn + ")", normalize_msg(err)); return; }
+  if (sol.solve_result_ != sp.code) VIOL("solve result code differs (" + pn + ")", std::to_string(sol.solve_result_));
   if (sp.primal) {
     bool ok = (int)sol.x_.size() == n; for (int j = 0; ok && j < n; ++j) ok = sol.x_[j] == XV[j];
-    if (!ok) viol("solution x not in the caller's original order", "got " + vecd(sol.x_) + " want " + vecd(std::vector<double>(XV, XV + n)) + " perm " + vecs(vperm));
+    if (!ok) VIOL("solution x not in the caller's original order", "got " + vecd(sol.x_) + " want " + vecd(std::vector<double>(XV, XV + n)) + " perm " + vecs(vperm));
   } else L.classes.insert(std::string("sol:no-primal:x_size=") + (sol.x_.empty() ? "0" : "n"));
   if (sp.dual) {
     bool ok = (int)sol.y_.size() == m; for (int r = 0; ok && r < m; ++r) ok = sol.y_[r] == YV[r];
-    if (!ok) viol("solution duals differ", "got " + vecd(sol.y_));
+    if (!ok) VIOL("solution duals differ", "got " + vecd(sol.y_));
   }
   static const char* KN[4] = {"var", "con", "obj", "problem"};
   int nexp = 0;
@@ -647,11 +659,11 @@ static void check_solution(const Data& D, const SolPattern& sp, const mp::NLSolu
     auto vals = D.sol_suffix(k); std::string kd = std::string(KN[k & 3]) + "," + (k & 4 ? "real" : "int");
     const mp::NLSuffix* s = sol.suffixes_.Find(SSUFNAME[k], k);
     stat("sol_suffix_checks");
-    if (!s) { viol("solution suffix missing (" + kd + ")", SSUFNAME[k]); continue; }
-    if ((s->kind_ & 4) != (k & 4) || (s->kind_ & 3) != (k & 3)) viol("solution suffix kind differs (" + kd + ")", std::to_string(s->kind_));
-    if (s->values_ != vals) viol("solution suffix not un-permuted to caller order (" + kd + ")", "got " + vecd(s->values_) + " want " + vecd(vals) + " perm " + vecs(vperm));
+    if (!s) { VIOL("solution suffix missing (" + kd + ")", SSUFNAME[k]); continue; }
+    if ((s->kind_ & 4) != (k & 4) || (s->kind_ & 3) != (k & 3)) VIOL("solution suffix kind differs (" + kd + ")", std::to_string(s->kind_));
+    if (s->values_ != vals) VIOL("solution suffix not un-permuted to caller order (" + kd + ")", "got " + vecd(s->values_) + " want " + vecd(vals) + " perm " + vecs(vperm));
   }
-  if ((int)sol.suffixes_.size() != nexp) viol("solution has unexpected number of suffixes (" + pn + ")", std::to_string(sol.suffixes_.size()));
+  if ((int)sol.suffixes_.size() != nexp) VIOL("solution has unexpected number of suffixes (" + pn + ")", std::to_string(sol.suffixes_.size()));
 }
 
 // ------------------------------------------------------------------------------------ one case
@@ -695,7 +707,7 @@ static void run_case(const Case& c) {
   const mp::NLModel& cmdl = mdl;   // a non-const lvalue would select the NLFeeder template overload
   bool ok = nls.LoadModel(cmdl);
   stage(ST_ORACLE);
-  if (!ok) { viol("LoadModel failed", normalize_msg(nls.GetErrorMessage())); return; }
+  if (!ok) { VIOL("LoadModel failed", normalize_msg(nls.GetErrorMessage())); return; }
   std::vector<int> vperm = nls.pd_.vperm_, vinv = nls.pd_.vperm_inv_;
   bool pok = valid_perm(vperm, vinv, c.n), nonident = false;
   for (int j = 0; pok && j < c.n; ++j) if (vperm[j] != j) nonident = true;
@@ -732,11 +744,11 @@ static void run_case(const Case& c) {
     mp::NLSolution sol = nls2.Solve(mdl, "true", "");
     stage(ST_ORACLE);
     stat("solve_path_runs");
-    if (!sol) viol("Solve(model, solver) returned no solution", normalize_msg(nls2.GetErrorMessage()));
+    if (!sol) VIOL("Solve(model, solver) returned no solution", normalize_msg(nls2.GetErrorMessage()));
     else {
       bool xok = (int)sol.x_.size() == c.n; for (int j = 0; xok && j < c.n; ++j) xok = sol.x_[j] == XV[j];
-      if (!xok) viol("Solve(): solution x not in the caller's original order", vecd(sol.x_));
-      if (sol.obj_val_ != D.ref_obj(XV)) viol("Solve(): obj_val_ != reference formula at x", "got " + fmtd(sol.obj_val_) + " want " + fmtd(D.ref_obj(XV)));
+      if (!xok) VIOL("Solve(): solution x not in the caller's original order", vecd(sol.x_));
+      if (sol.obj_val_ != D.ref_obj(XV)) VIOL("Solve(): obj_val_ != reference formula at x", "got " + fmtd(sol.obj_val_) + " want " + fmtd(D.ref_obj(XV)));
     }
   }
   // ---- C API
@@ -762,17 +774,17 @@ static void run_case(const Case& c) {
     stage(ST_CAPI_LOAD);
     int lok = NLW2_LoadNLModel_C(&cs, &cm);
     stage(ST_ORACLE);
-    if (!lok) viol("NLW2_LoadNLModel_C failed", normalize_msg(NLW2_GetErrorMessage_C(&cs)));
+    if (!lok) VIOL("NLW2_LoadNLModel_C failed", normalize_msg(NLW2_GetErrorMessage_C(&cs)));
     else {
       bool identical = true;
       for (const char* e : {".nl", ".col", ".row"}) {
         std::string a, b; bool ha = slurp(stub + e, a), hb = slurp(stubc + e, b);
         stat("capi_file_compares");
-        if (ha != hb || a != b) { identical = false; viol(std::string("files not byte-identical to the C++ API (") + e + ")", ha != hb ? "existence differs" : "content differs"); }
+        if (ha != hb || a != b) { identical = false; VIOL(std::string("files not byte-identical to the C++ API (") + e + ")", ha != hb ? "existence differs" : "content differs"); }
       }
       auto* impl = (mp::NLSolver*)cs.p_nlsol_;
       std::vector<int> vp2 = impl->pd_.vperm_, vi2 = impl->pd_.vperm_inv_;
-      if (vp2 != vperm) viol("permutation differs from the C++ API", vecs(vp2));
+      if (vp2 != vperm) VIOL("permutation differs from the C++ API", vecs(vp2));
       if (!identical) check_written(stubc, D, vp2, vi2);   // say what is semantically wrong with the C-written files
       if (valid_perm(vp2, vi2, c.n)) {
         spit(stubc + ".sol", keep_sol);
@@ -786,12 +798,12 @@ static void run_case(const Case& c) {
         for (int r = 0; same && r < s.n_dual_values_; ++r) same = s.y_[r] == keep.y_[r];
         if (same) { int i = 0; for (const auto& sf : keep.suffixes_) { const auto& q = s.suffixes_[i++];
           if (sf.name_ != q.name_ || sf.kind_ != q.kind_ || (int)sf.values_.size() != q.numval_ || !std::equal(sf.values_.begin(), sf.values_.end(), q.values_)) same = false; } }
-        if (!same) viol("solution differs from the C++ API", "code " + std::to_string(s.solve_result_));
+        if (!same) VIOL("solution differs from the C++ API", "code " + std::to_string(s.solve_result_));
         if (s.n_primal_values_ == c.n) {
           stage(ST_CAPI_OBJVAL);
           double ov = NLW2_ComputeObjValue_C(&cm, s.x_);
           stage(ST_ORACLE);
-          if (ov != D.ref_obj(s.x_)) viol("NLW2_ComputeObjValue_C != reference formula", fmtd(ov));
+          if (ov != D.ref_obj(s.x_)) VIOL("NLW2_ComputeObjValue_C != reference formula", fmtd(ov));
         }
       }
     }
@@ -805,7 +817,7 @@ static void run_case(const Case& c) {
     stage(ST_ORACLE);
     stat("objval_recomputed");
     double want_at_returned = D.ref_obj(rx.data());
-    if (ov != want_at_returned) viol("ComputeObjValue(x) != c0+c.x+0.5x'Qx at the returned x", "got " + fmtd(ov) + " want " + fmtd(want_at_returned));
+    if (ov != want_at_returned) VIOL("ComputeObjValue(x) != c0+c.x+0.5x'Qx at the returned x", "got " + fmtd(ov) + " want " + fmtd(want_at_returned));
   }
   stage(ST_CLEANUP);
   if (!g_keep) { clean_stub(stub); if (c.capi) clean_stub(stubc); }
@@ -846,6 +858,7 @@ static void enumerate(bool thorough, const Emit& emit, std::map<std::string, lon
     std::set<unsigned> red; for (unsigned h : reduced_supports3()) red.insert(h);
     for (int tv = 0; tv < nt; ++tv) for (unsigned h : sup) for (int hf = 1; hf <= 2; ++hf) for (int hd = 0; hd <= (h ? 1 : 0); ++hd) {
       if (!thorough && n == 3 && hd && __builtin_popcount(h) > 2) continue;
+      if (hd && hf == 1 && n == 3) continue;      // duplicated entry x declared format jointly only for n<=2
       std::vector<int> fmts = {1};
       if (thorough && (n < 3 || red.count(h))) fmts = {1, 0, 2};
       for (int fm : fmts) {
@@ -1010,7 +1023,7 @@ int main(int argc, char** argv) {
   if (S.i == 0) {
     Case c = rich(3); c.t[0] = 0; c.t[1] = 3; c.t[2] = 2; c.hm = 1u | 1u << 4 | 1u << 8 | 1u << 1;
     for (int mode = 1; mode <= 2; ++mode) {
-      g_corrupt = mode; run_case(c); g_corrupt = 0;
+      g_sent_sigs.clear(); g_corrupt = mode; run_case(c); g_corrupt = 0; g_sent_sigs.clear();
       bool caught = false;
       for (auto& v : L.viol) {
         if (mode == 1 && (v[0].find("permuted position") != std::string::npos || v[0].find("follow") != std::string::npos)) caught = true;
